@@ -167,7 +167,7 @@ package gradtrack
 //@ define edgeReady(e) := e != nil && e.gradFn != nil && tinv(e.target) && e.target == tgtOf(e.gradFn) && imp(srcOf(e.gradFn) != nil, chainPre(srcOf(e.gradFn)))
 // representation invariant of the graph (established by every public operation, preserved by the frames): the edges of
 // a context belong to its tensor, and a gradient has its owner's shape and is a spent untracked tensor
-//@ define graphInv() := forallT(x, imp(x != nil && x.gctx != nil, edgeInv(x) && gradInv(x))) && forallT(x, forallT(z, imp(x != nil && z != nil && x.gctx != nil && x.gctx == z.gctx, x == z)))
+//@ define graphInv() := forallT(x, imp(x != nil && x.gctx != nil, edgeInv(x) && gradInv(x) && ownerOf(x.gctx) == x))
 
 //@ func accumulateGrad
 //@   requires gctx != nil && isGrad(grad) && imp(gctx.gradient != nil, isGrad(gctx.gradient) && sameShape(gctx.gradient, grad))
@@ -190,6 +190,27 @@ package gradtrack
 //@   requires tinv(t)
 //@   ensures[C01] res1 == nil && res0 != nil && sameShape(res0, t) && isGrad(res0) && forallJ(J, imp(inb(res0, J), el(res0, J) == 1))
 
+// one back edge: mark the target spent, obtain the edge's gradient, accumulate it on the target; nothing else is written
+//@ func applyEdge
+//@   requires edgeReady(edge) && graphInv()
+//@   modifies GradContext.bpdirty, GradContext.gradient
+//@   ensures[C08] imp(!old(edge.target.gctx.tracked), err == nil && forallG(g, g.bpdirty == old(g.bpdirty) && g.gradient == old(g.gradient)))
+//@   ensures[C08,C01] forallG(g, g == edge.target.gctx || (g.bpdirty == old(g.bpdirty) && g.gradient == old(g.gradient)))
+//@   ensures[C08] forallG(g, imp(old(g.bpdirty), g.bpdirty) && imp(old(g.gradient) != nil, g.gradient != nil))
+//@   ensures[C01,C08] imp(old(edge.target.gctx.tracked) && err == nil, edge.target.gctx.bpdirty && edge.target.gctx.gradient != nil)
+//@   ensures[C01] graphInv()
+
+//@ define delivered(e) := imp(e.target.gctx.tracked, e.target.gctx.bpdirty && e.target.gctx.gradient != nil)
+
+// The order in which contexts are handled: the root first, and every other member after a member that holds an edge to
+// it. This is a property of the whole graph (depth-first search with a visited set); it is assumed here and checked by
+// the bounded stand-in TestDAG together with the consequence that matters (each tensor receives the total derivative).
+//@ func consumersFirst
+//@   requires root != nil && graphInv()
+//@   assumed whole-graph ordering (reverse depth-first post-order with a visited map: pointer-keyed map and recursive closure are outside the verified subset); bounded stand-in: rac TestDAG
+//@   ensures len(order) >= 1 && order[0] == root && forall(k, 0, len(order), order[k] != nil && order[k].tracked && ownerOf(order[k]) != nil && ownerOf(order[k]).gctx == order[k])
+//@   ensures forall(k, 1, len(order), exists(j, 0, k, exists(i, 0, len(order[j].backEdges), order[j].backEdges[i].target.gctx == order[k])))
+
 //@ func backward
 //@   requires edgeReady(edge) && graphInv()
 //@   modifies GradContext.bpdirty, GradContext.gradient
@@ -198,9 +219,15 @@ package gradtrack
 //@   ensures[C08] forallG(g, imp(!g.tracked, g.bpdirty == old(g.bpdirty) && g.gradient == old(g.gradient)))
 //@   ensures[C01,C08] imp(old(edge.target.gctx.tracked) && err == nil, edge.target.gctx.bpdirty && edge.target.gctx.gradient != nil)
 //@   ensures[C01] graphInv()
-//@   loop 0 invariant err == nil && gctx == edge.target.gctx && gctx.tracked && gctx.bpdirty && gctx.gradient != nil && graphInv()
+//@   loop 0 invariant err == nil && graphInv() && root == edge.target.gctx && root.tracked && root.bpdirty && root.gradient != nil
 //@   loop 0 invariant forallG(g, imp(old(g.bpdirty), g.bpdirty) && imp(old(g.gradient) != nil, g.gradient != nil))
 //@   loop 0 invariant forallG(g, imp(!g.tracked, g.bpdirty == old(g.bpdirty) && g.gradient == old(g.gradient)))
+//@   loop 0 invariant forall(m, 0, _i0, forall(i, 0, len(_r0[m].backEdges), delivered(_r0[m].backEdges[i])))
+//@   loop 1 invariant err == nil && graphInv() && root.tracked && root.bpdirty && root.gradient != nil && gctx.tracked && gctx.bpdirty && gctx.gradient != nil
+//@   loop 1 invariant forallG(g, imp(old(g.bpdirty), g.bpdirty) && imp(old(g.gradient) != nil, g.gradient != nil))
+//@   loop 1 invariant forallG(g, imp(!g.tracked, g.bpdirty == old(g.bpdirty) && g.gradient == old(g.gradient)))
+//@   loop 1 invariant forall(m, 0, _i0, forall(i, 0, len(_r0[m].backEdges), delivered(_r0[m].backEdges[i])))
+//@   loop 1 invariant forall(i, 0, _i1, delivered(gctx.backEdges[i]))
 
 //@ func BackPropagate
 //@   requires tinv(t) && graphInv()
